@@ -66,11 +66,15 @@ class Archive:
             for zi in z.infolist():
                 self.entries.append((zi, z.read(zi.filename)))
 
-    def rebuild(self, name, data2):
+    def rebuild(self, name, data2, extra_first=(), extra_last=()):
         out = io.BytesIO()
         with zipfile.ZipFile(out, "w") as z:
+            for n, d in extra_first:
+                z.writestr(n, d)
             for zi, data in self.entries:
                 z.writestr(zi, data2 if zi.filename == name else data, compress_type=zi.compress_type)
+            for n, d in extra_last:
+                z.writestr(n, d)
         return out.getvalue()
 
 
@@ -231,15 +235,64 @@ def equivalent(region, blob0, blob1):
     return None
 
 
-def tamper(p, sig_name, region, off, val, max_sdk=None, others_first=False):
+def _case_variant(name):
+    head, tail = name.rsplit("/", 1) if "/" in name else ("", name)
+    tail2 = tail.lower() if tail != tail.lower() else tail.upper()
+    return (head + "/" if head else "") + tail2
+
+
+_PRIOR_CACHE = {}
+
+
+def _process_prior(names):
+    """earlier work in the same process: other archives are opened and their v1 certificates are asked for"""
+    from androguard.core.apk import APK
+    for nme in names or ():
+        if nme not in _PRIOR_CACHE:
+            sub = "apksig-gen" if nme.startswith("gen-") else "apksig"
+            with open(os.path.join(core.CORPUS_DIR, sub, nme), "rb") as f:
+                _PRIOR_CACHE[nme] = f.read()
+        try:
+            APK(_PRIOR_CACHE[nme], raw=True).get_certificates_v1()
+        except Exception:
+            pass
+
+
+def reorder_attrs_bytes(blob, region):
+    """the signed attributes with their first two members swapped (same length, same SET, different bytes)"""
+    from asn1crypto import cms
+    ename, data, lo, hi = region
+    sa = cms.ContentInfo.load(blob)["content"]["signer_infos"][0]["signed_attrs"]
+    parts = [a.dump() for a in sa]
+    if len(parts) < 2 or parts[0] == parts[1]:
+        return None
+    whole = sa.dump()
+    body = b"".join(parts)
+    head = whole[:len(whole) - len(body)]
+    new = head + parts[1] + parts[0] + b"".join(parts[2:])
+    if len(new) != hi - lo or new == data[lo:hi]:
+        return None
+    return new
+
+
+def tamper(p, sig_name, region, off, val, max_sdk=None, others_first=False, twin=None, prior=None, replace=None):
     """One altered byte, archive re-written, then a short history of queries on ONE APK object:
     (optionally the untouched blocks first,) the tampered block through get_certificate_der(block, max_sdk_version),
     then get_certificates_v1()."""
     from androguard.core.apk import APK
     ename, data, lo, hi = p["regions"][region]
     d = bytearray(data)
-    d[off] = val
-    raw2 = p["archive"].rebuild(ename, bytes(d))
+    if replace is not None:
+        d[lo:hi] = replace           # an encoding-level alteration of the whole region (same length)
+    else:
+        d[off] = val
+    extra_first, extra_last = (), ()
+    if twin:
+        # the untouched bytes of the altered entry under a name that differs only in case, before or after it
+        t = [(_case_variant(ename), bytes(data))]
+        extra_first, extra_last = (t, ()) if twin == "before" else ((), t)
+    raw2 = p["archive"].rebuild(ename, bytes(d), extra_first, extra_last)
+    _process_prior(prior)
     a = None
     try:
         a = APK(raw2, raw=True)
@@ -268,6 +321,43 @@ def tamper(p, sig_name, region, off, val, max_sdk=None, others_first=False):
     return c, detail, bytes(d)
 
 
+def _invalid_block_query(apk_name, sig_name, prior, max_sdk):
+    from androguard.core.apk import APK
+    sub = "apksig-gen" if apk_name.startswith("gen-") else "apksig"
+    raw = open(os.path.join(core.CORPUS_DIR, sub, apk_name), "rb").read()
+    _process_prior(prior)
+    try:
+        a = APK(raw, raw=True)
+        c = a.get_certificate_der(sig_name, max_sdk) if max_sdk is not None else a.get_certificate_der(sig_name)
+        return "none" if c is None else "certificate"
+    except Exception as e:
+        return "exc:" + type(e).__name__
+
+
+def invalid_block_case(seed, apk_name, sig_name, gen_names):
+    fr = core.rng(seed, "faults")
+    problems = {}
+    fired = {}
+    n = 0
+    hist = [[], list(gen_names)] + [[fr.choice(gen_names)] for _ in range(2) if gen_names]
+    for prior in hist:
+        for max_sdk in (None, 23, 30):
+            res = _invalid_block_query(apk_name, sig_name, prior, max_sdk)
+            n += 1
+            fired["invalid-block-queried"] = fired.get("invalid-block-queried", 0) + 1
+            if prior:
+                fired["history:other-archive-processed-first"] = fired.get("history:other-archive-processed-first", 0) + 1
+            if res == "certificate":
+                problems.setdefault("C32:accepted:invalid-block",
+                                    {"msg": f"{apk_name} {sig_name}: the block's signature does not verify (independent check) but a "
+                                            f"certificate is reported (max_sdk_version={max_sdk}, archives processed before: {prior})",
+                                     "fault": ["invalid-block", 0, 0, max_sdk, False, None, prior]})
+    case = {"seed": seed, "apk": apk_name, "sig": sig_name, "by_sig": {s: v["fault"] for s, v in problems.items()}} if problems else None
+    return {"problems": [(s, v["msg"]) for s, v in sorted(problems.items())], "digest": core.digest_of([apk_name, sig_name, "invalid", n, sorted(problems)]),
+            "probes": {"invalid-blocks-checked": 1}, "faults": fired, "units": n, "nontrivial": False, "cases": n, "sample": None,
+            "case": case, "skipped": {}, "extra": {"nontrivial_faults": n, "blocks": 1, "blocks_fully_enumerated": 0, "apks": [apk_name]}}
+
+
 def worker(seed):
     core.use_repo()
     tier = os.environ.get("VERIF_TIER_NAME", "quick")
@@ -280,10 +370,16 @@ def worker(seed):
         cands = [c for c in cands if "signed-attrs" in c[0]] or cands
     elif k < 0.45:                 # archives with several signature blocks / mixed key types (corpus/apksig-gen, see gen/mk_v1_apks.py)
         cands = [c for c in cands if c[0].startswith("gen-")] or cands
+    elif k < 0.55:                 # blocks that must not yield a certificate at all
+        cands = [c for c in cands if "forged" in c[0] or "wrong-" in c[0] or "missing-digest" in c[0]] or cands
     apk_name, sigs = r.choice(cands)
     sig_name = r.choice(sigs)
     p, why = plan(apk_name, sig_name)
     base = {"probes": {}, "faults": {}, "units": 0, "nontrivial": False, "sample": None, "case": None, "cases": 0, "extra": {}}
+    if p is None and why == "pristine-block-does-not-verify-independently":
+        # a block whose signature does not verify (apksig's negative samples, the forged blocks of corpus/apksig-gen):
+        # no certificate may be reported for it, whatever was processed earlier in the process
+        return invalid_block_case(seed, apk_name, sig_name, [c[0] for c in cands if c[0].startswith("gen-") and c[0] != apk_name])
     if p is None:
         return dict(base, problems=[], digest=core.digest_of([apk_name, sig_name, why]), skipped={why: 1})
     from androguard.core.apk import APK
@@ -308,6 +404,20 @@ def worker(seed):
     outcomes = {}
     n = 0
     nontriv = 0
+    prior_pool = [c[0] for c in cands if c[0].startswith("gen-") and c[0] != apk_name]
+    if "signed-attrs" in p["regions"]:
+        new = reorder_attrs_bytes(p["blob"], p["regions"]["signed-attrs"])
+        if new is not None:
+            for max_sdk in (None, 23):
+                c, detail, d2 = tamper(p, sig_name, "signed-attrs", 0, 0, max_sdk, False, None, None, replace=new)
+                n += 1
+                nontriv += 1
+                fired["signed-attrs:members-reordered"] = fired.get("signed-attrs:members-reordered", 0) + 1
+                if c is not None:
+                    problems.setdefault(f"C32:accepted:signed-attrs-reordered:{p['kalg']}",
+                                        {"msg": f"{apk_name} {sig_name}: the signed attributes were re-ordered (bytes altered, same set) and a "
+                                                f"certificate is still reported ({detail})",
+                                         "fault": ["signed-attrs", "reorder", 0, max_sdk, False, None, None]})
     for region in sorted(p["regions"]):
         ename, data, lo, hi = p["regions"][region]
         start = fr.randrange(stride) if stride > 1 else 0
@@ -320,7 +430,13 @@ def worker(seed):
             for val in vals:
                 max_sdk = fr.choice([None, None, None, 23, 24, 30])
                 others_first = bool(p["others"]) and fr.random() < 0.5
-                c, detail, d2 = tamper(p, sig_name, region, off, val, max_sdk, others_first)
+                twin = fr.choice(["after", "before"]) if fr.random() < 0.06 else None
+                prior = [fr.choice(prior_pool)] if prior_pool and fr.random() < 0.05 else None
+                c, detail, d2 = tamper(p, sig_name, region, off, val, max_sdk, others_first, twin, prior)
+                if twin:
+                    fired["archive:case-variant-twin-entry-" + twin] = fired.get("archive:case-variant-twin-entry-" + twin, 0) + 1
+                if prior:
+                    fired["history:other-archive-processed-first"] = fired.get("history:other-archive-processed-first", 0) + 1
                 if others_first:
                     fired["history:other-blocks-queried-first"] = fired.get("history:other-blocks-queried-first", 0) + 1
                 if max_sdk is not None:
@@ -340,7 +456,7 @@ def worker(seed):
                 if sig not in problems:
                     problems[sig] = {"msg": f"{apk_name} {sig_name}: byte {off - lo} of {region} changed {orig:#04x} -> {val:#04x} "
                                             f"and a certificate is still reported ({detail})",
-                                     "fault": [region, off - lo, val, max_sdk, others_first]}
+                                     "fault": [region, off - lo, val, max_sdk, others_first, twin, prior]}
     case = {"seed": seed, "apk": apk_name, "sig": sig_name, "by_sig": {s: v["fault"] for s, v in problems.items()}} if problems else None
     sample = {"seed": seed, "apk": apk_name, "block": sig_name, "key": p["kalg"],
               "regions": {k: v[3] - v[2] for k, v in p["regions"].items()}, "values_per_offset": per_off, "offset_stride": stride,
@@ -359,12 +475,21 @@ def digest_for_index(base, i):
 
 
 def _check(apk_name, sig_name, fault):
+    if fault and fault[0] == "invalid-block":
+        res = _invalid_block_query(apk_name, sig_name, fault[6], fault[3])
+        return ("C32:accepted:invalid-block" if res == "certificate" else None), res
     p, why = plan(apk_name, sig_name)
     if p is None:
         return None, why
-    region, roff, val, max_sdk, others_first = (list(fault) + [None, False])[:5]
+    region, roff, val, max_sdk, others_first, twin, prior = (list(fault) + [None, False, None, None])[:7]
     ename, data, lo, hi = p["regions"][region]
-    c, detail, d2 = tamper(p, sig_name, region, lo + roff, val, max_sdk, others_first)
+    if roff == "reorder":
+        new = reorder_attrs_bytes(p["blob"], p["regions"]["signed-attrs"])
+        c, detail, d2 = tamper(p, sig_name, region, 0, 0, max_sdk, False, None, None, replace=new)
+        if c is None:
+            return None, detail
+        return f"C32:accepted:signed-attrs-reordered:{p['kalg']}", detail
+    c, detail, d2 = tamper(p, sig_name, region, lo + roff, val, max_sdk, others_first, twin, prior)
     if c is None:
         return None, detail
     if region != "sf" and equivalent(region, p["blob"], d2):
